@@ -449,7 +449,14 @@ func (v *Visitor) visit(s *df.AnalyzerState, entrypoint *df.CallNodeArg) error {
 					var added bool
 					stack, added = v.addNext(s, stack, cur, nextNodeWithTrace, cur.Status, df.EdgeInfo{}, seen)
 					if added {
-						v.prevEdgeInfos[graphNode] = append(v.prevEdgeInfos[graphNode], edgeInfo)
+						// The in-edge stores a single EdgeInfo per source node, but the source may flow to this
+						// argument with several tuple indices (a, b := f(); g(a + b)): the out-edges of the source
+						// record all of them.
+						if outInfos := nextNode.Out()[graphNode]; len(outInfos) > 0 {
+							v.prevEdgeInfos[graphNode] = append(v.prevEdgeInfos[graphNode], outInfos...)
+						} else {
+							v.prevEdgeInfos[graphNode] = append(v.prevEdgeInfos[graphNode], edgeInfo)
+						}
 					}
 				}
 			}
